@@ -76,7 +76,7 @@ CHECKS = {
          "Trusted: the scope model and the rule-name matcher (vlib/props/c04.py); line numbers inside messages are masked; per-linter ignore is judged only for linters whose documentation lists the option; file-header/file-placement only with forms that do not alter their subject.",
          "DESIGN.md section 4 C04"),
  "C05": ("runtime monitoring: boundary trace of linter commands on a staircase probe project (constructs straddling every threshold value) under the same setting written through .thailint.yaml / .thailint.json / pyproject.toml / --config (command and group level) with hyphen or underscore section names; relational oracles (carrier equivalence, enabled:false silence, effect + monotonicity along sweeps, precedence decoding, top-level ignore, exit 2 for invalid values and unparsable files)",
-         "Held on the executions observed: 20 commands x enabled:false x carriers; one sweep per documented threshold / switch (about 40, incl. every lazy-ignores check_* switch and the file-header keys its documentation gives); precedence yaml>json>pyproject and CLI options vs file values and per-language overrides; top-level ignore in every carrier; ten invalid values and eight unparsable-file variants; evidence counts each case class.",
+         "Held on the executions observed: 20 commands x enabled:false x carriers; one sweep per documented threshold / switch / list-valued key (66: every key of the option tables in docs/*-linter.md and docs/configuration.md except cqs, dry.filters and dry.storage_mode, including nested sub-rule sections of performance); precedence yaml>json>pyproject and CLI options vs file values and per-language overrides; top-level ignore in every carrier; ten invalid values and eight unparsable-file variants; evidence counts each case class.",
          "Trusted: the staircase project (vlib/gen/staircase.py) has constructs on both sides of each swept value; 'invalid' = rejected by the linter's own validation through .thailint.yaml (plus the documented non-positive limits).",
          "DESIGN.md section 4 C05"),
 
